@@ -65,7 +65,7 @@ NoPend == [i |-> FALSE, o |-> FALSE, e |-> FALSE, x |-> FALSE]
 NoBuf == [i |-> 0, o |-> <<>>, e |-> <<>>]
 NoCnt == [w |-> 0, cw1 |-> 0, cw2 |-> 0, d1 |-> 0, d2 |-> 0, cr |-> 0]
 NoFrame == [fn |-> "none", h |-> 0, pc |-> "idle", until |-> INF, i |-> 0, acts |-> <<>>, r |-> 0,
-            sigs |-> <<>>, reaped |-> <<>>, t0 |-> 0, a |-> <<>>, x |-> <<>>, then |-> "ret", alt |-> {}]
+            sigs |-> <<>>, reaped |-> <<>>, t0 |-> 0, a |-> <<>>, x |-> <<>>, then |-> "ret", alt |-> {}, keep |-> 0]
 
 Init ==
   /\ life = [h \in Handles |-> "none"]
@@ -139,7 +139,16 @@ RECURSIVE RunStop(_)
 RunStop(s) ==
   LET h == s.fr.h
       i == s.fr.i
-      Finish(t) == IF t.fr.then = "destroy" THEN DestroyTail(t, h) ELSE Done(t)
+      Finish(t) ==
+        CASE t.fr.then = "destroy" -> DestroyTail(t, h)
+          [] t.fr.then = "rundestroy" -> [DestroyTail(t, h) EXCEPT !.fr.r = t.fr.keep]
+          [] t.fr.then = "run" ->
+               \* run: the stop result is the result; destroy then applies the policy if the child is still there
+               IF t.life[h] = "run"
+                 THEN RunStop([t EXCEPT !.fr.keep = t.fr.r, !.fr.then = "rundestroy", !.fr.acts = t.opt[h].stop,
+                                        !.fr.i = 1, !.fr.pc = "act"])
+                 ELSE [DestroyTail(t, h) EXCEPT !.fr.r = t.fr.r]
+          [] OTHER -> Done(t)
   IN
   CASE s.fr.pc = "act" ->
          IF i > 3 THEN Finish(s)
@@ -297,9 +306,58 @@ RunPoll(s) ==
                    (IF byTo THEN {ZeroRev(srcs)} ELSE {}) \cup
                    (IF byDl THEN DeadlineAlts(srcs, LAMBDA g : g # 0 /\ s.life[g] # "none" /\ s.opt[g].dl = tdl) ELSE {})])
 
+(* ---- drain (and the drain part of run) : C16 ---- *)
+\* fr.a = <<sink1, sink2>> with sinki = <<fail_at, fail_val>> (fail_at = 0: never fails);
+\* fr.x = [c1, c2: calls made per sink; b1, b2: data bytes passed per sink; z1, z2: closing (size 0) calls per sink]
+SinkRet(s, k) ==   \* the value sink k returns for the call it is about to receive
+  LET calls == IF k = 1 THEN s.fr.x.c1 ELSE s.fr.x.c2
+      sp == s.fr.a[k]
+  IN IF sp[1] # 0 /\ calls + 1 = sp[1] THEN sp[2] ELSE 0
+SinkCall(s, k, nbytes, closing) ==
+  IF k = 1 THEN [s EXCEPT !.fr.x.c1 = @ + 1, !.fr.x.b1 = @ + nbytes, !.fr.x.z1 = @ + closing]
+  ELSE [s EXCEPT !.fr.x.c2 = @ + 1, !.fr.x.b2 = @ + nbytes, !.fr.x.z2 = @ + closing]
+
+RECURSIVE RunDrain(_)
+RunDrain(s) ==
+  LET h == s.fr.h
+      EndDrain(t, r) ==
+        IF t.fr.then = "ret" THEN Done([t EXCEPT !.fr.r = r])
+        ELSE IF r < 0 THEN  \* run: an error from drain is the result; destroy applies the stop policy
+               RunStop([t EXCEPT !.fr.keep = r, !.fr.fn = "run", !.fr.then = "rundestroy", !.fr.acts = t.opt[h].stop,
+                                 !.fr.i = 1, !.fr.pc = "act"])
+        ELSE RunStop([t EXCEPT !.fr.fn = "run", !.fr.then = "run", !.fr.acts = Defaulted(t.fr.acts), !.fr.i = 1, !.fr.pc = "act"])
+      \* process one ready stream st through sink k
+      Step(st, k) ==
+        LET b == StreamBuf(s, h, st) IN
+        IF Len(b) > 0
+          THEN LET rv == SinkRet(s, k)
+                   s1 == SinkCall([Deliverk(s, h, st, Len(b)) EXCEPT !.fr.r = 0, !.fr.x = s.fr.x], k, Len(b), 0)
+               IN IF rv # 0 THEN EndDrain(s1, rv) ELSE RunDrain(s1)
+          ELSE LET rv == SinkRet(s, k)
+                   s1 == SinkCall(ClosePend(s, h, st), k, 0, 1)
+               IN IF rv # 0 THEN EndDrain(s1, rv) ELSE RunDrain(s1)
+      outReady == s.pend[h].o /\ (s.buf[h].o # <<>> \/ OutWriters(s, h) = {})
+      errReady == s.pend[h].e /\ (s.buf[h].e # <<>> \/ ErrWriters(s, h) = {})
+  IN
+  CASE s.fr.pc = "init" ->
+         LET r1 == SinkRet(s, 1)
+             s1 == SinkCall(s, 1, 0, 0)
+         IN IF r1 # 0 THEN EndDrain(s1, r1)
+            ELSE LET r2 == SinkRet(s1, 2)
+                     s2 == SinkCall(s1, 2, 0, 0)
+                 IN IF r2 # 0 THEN EndDrain(s2, r2) ELSE RunDrain([s2 EXCEPT !.fr.pc = "look"])
+    [] s.fr.pc \in {"look", "woke"} ->
+         IF Expired(s, h) THEN EndDrain(s, ETIMEDOUT)
+         ELSE IF ~s.pend[h].o /\ ~s.pend[h].e THEN EndDrain(s, 0)
+         ELSE IF outReady THEN Step(S_OUT, 1)
+         ELSE IF errReady THEN Step(S_ERR, 2)
+         ELSE Block(s, s.opt[h].dl)
+
 (* ---- dispatch ---- *)
 Run(s) ==
   CASE s.fr.fn \in {"stop", "destroy"} -> RunStop(s)
+    [] s.fr.fn = "drain" -> RunDrain(s)
+    [] s.fr.fn = "run" -> IF s.fr.then = "drain" THEN RunDrain(s) ELSE RunStop(s)
     [] s.fr.fn = "wait" -> RunWait(s)
     [] s.fr.fn = "read" -> RunRead(s)
     [] s.fr.fn = "write" -> RunWrite(s)
@@ -310,6 +368,11 @@ Wake ==
   /\ fr.pc = "blocked"
   /\ \/ fr.until # INF /\ now >= fr.until
      \/ fr.fn \in {"stop", "destroy", "wait"} /\ ch[fr.h].alive # "run"
+     \/ fr.fn = "run" /\ fr.then # "drain" /\ ch[fr.h].alive # "run"
+     \/ fr.fn \in {"drain", "run"} /\ fr.then \in {"ret", "drain"} /\
+          LET b == Bundle IN
+          \/ pend[fr.h].o /\ (buf[fr.h].o # <<>> \/ OutWriters(b, fr.h) = {})
+          \/ pend[fr.h].e /\ (buf[fr.h].e # <<>> \/ ErrWriters(b, fr.h) = {})
      \/ fr.fn = "read" /\ (StreamBuf(Bundle, fr.h, fr.a[1]) # <<>> \/ StreamWriters(Bundle, fr.h, fr.a[1]) = {})
      \/ fr.fn = "write" /\ (buf[fr.h].i < PipeCap \/ InReaders(Bundle, fr.h) = {})
      \/ fr.fn = "poll" /\ \E k \in 1..Len(fr.a[1]) : EventsOf(Bundle, fr.a[1][k]) # 0
@@ -327,12 +390,22 @@ ChildStates(s) ==
 
 SetToSeq(S) == CHOOSE q \in [1..Cardinality(S) -> S] : \A a, b \in 1..Cardinality(S) : a # b => q[a] # q[b]
 
+\* normalised sink-call summary (DESIGN 6 C16): per sink <<calls, data bytes, closing calls>>;
+\* when a sink failed only the failing sink's record is compared (the order across sinks is not part of the contract)
+DrainSummary(f) ==
+  LET failed(k) == f.a[k][1] # 0 /\ (IF k = 1 THEN f.x.c1 ELSE f.x.c2) >= f.a[k][1]
+      rec(k) == IF k = 1 THEN <<f.x.c1, f.x.b1, f.x.z1>> ELSE <<f.x.c2, f.x.b2, f.x.z2>>
+  IN IF failed(1) THEN <<rec(1), <<-1, -1, -1>>>>
+     ELSE IF failed(2) THEN <<<<-1, -1, -1>>, rec(2)>>
+     ELSE <<rec(1), rec(2)>>
+
 RetRec(s) ==
   LET f == s.fr
       base == [e |-> "ret", t |-> now, sig |-> f.sigs, reap |-> f.reaped, mon |-> <<>>,
                nfd |-> NFd(s), nalloc |-> NAlloc(s), st |-> ChildStates(s)]
   IN CASE f.fn = "poll" /\ f.r = 0 -> base @@ [rev |-> [any |-> SetToSeq(f.x)]]
        [] f.fn = "read" /\ f.r > 0 -> base @@ [r |-> f.r, runs |-> f.x, bad |-> 0]
+       [] f.fn \in {"drain", "run"} /\ DOMAIN f.x # {} -> base @@ [r |-> f.r, dsum |-> DrainSummary(f), bad |-> 0]
        [] f.alt # {} -> base @@ [r |-> [any |-> SetToSeq({f.r} \cup f.alt)]]
        [] OTHER -> base @@ [r |-> f.r]
 
@@ -382,28 +455,37 @@ StartArgs(o) == [argv |-> <<o.prog>>, term |-> o.term,
                  o |-> [dl |-> o.dl, stop |-> o.stop, nb |-> IF o.nb THEN 1 ELSE 0, rin |-> o.rin, rout |-> o.rout,
                         rerr |-> o.rerr, input |-> o.input]]
 
-Start(h, o) ==
+\* error a start with options o fails with on a startable handle (0 = it succeeds)
+StartError(o) ==
   LET er == EffRedir(o) IN
+  IF o.input >= 0 /\ er.i # R_PIPE THEN EINVAL
+  ELSE IF o.prog # "/bin/c" THEN ENOENT
+  ELSE IF o.input > PipeCap THEN EAGAIN
+  ELSE 0
+
+\* what a successful start does to handle h
+StartEffect(s, h, o) ==
+  LET er == EffRedir(o)
+      hasIn == o.input >= 0
+      c == [alive |-> "run", code |-> 0, term |-> o.term, termAt |-> INF, self |-> o.self,
+            fd |-> << IF er.i = R_PIPE THEN "pi" ELSE "ot",
+                      IF er.o = R_PIPE THEN "po" ELSE "ot",
+                      IF er.e = R_PIPE THEN "pe" ELSE IF er.e = R_STDOUT /\ er.o = R_PIPE THEN "po" ELSE "ot" >>]
+  IN [s EXCEPT
+        !.life[h] = "run",
+        !.opt[h] = [dl |-> IF o.dl = 0 THEN INF ELSE now + o.dl, stop |-> Defaulted(o.stop), nb |-> o.nb],
+        !.pend[h] = [i |-> er.i = R_PIPE /\ ~hasIn, o |-> er.o = R_PIPE, e |-> er.e = R_PIPE, x |-> TRUE],
+        !.ch[h] = c,
+        !.buf[h] = [i |-> IF hasIn THEN o.input ELSE 0, o |-> <<>>, e |-> <<>>],
+        !.cnt[h] = [NoCnt EXCEPT !.w = IF hasIn THEN o.input ELSE 0]]
+
+Start(h, o) ==
   IF h = 0 \/ life[h] # "ns" THEN Immediate("start", h, StartArgs(o), EINVAL)
-  ELSE IF o.input >= 0 /\ er.i # R_PIPE THEN Immediate("start", h, StartArgs(o), EINVAL)
-  ELSE IF o.prog # "/bin/c" THEN Immediate("start", h, StartArgs(o), ENOENT)
-  ELSE IF o.input > PipeCap THEN Immediate("start", h, StartArgs(o), EAGAIN)
+  ELSE IF StartError(o) # 0 THEN Immediate("start", h, StartArgs(o), StartError(o))
   ELSE
     /\ Idle /\ ncalls' = ncalls + 1
-    /\ LET hasIn == o.input >= 0
-           c == [alive |-> "run", code |-> 0, term |-> o.term, termAt |-> INF, self |-> o.self,
-                 fd |-> << IF er.i = R_PIPE THEN "pi" ELSE "ot",
-                           IF er.o = R_PIPE THEN "po" ELSE "ot",
-                           IF er.e = R_PIPE THEN "pe" ELSE IF er.e = R_STDOUT /\ er.o = R_PIPE THEN "po" ELSE "ot" >>]
-           s == [Bundle EXCEPT
-                   !.life[h] = "run",
-                   !.opt[h] = [dl |-> IF o.dl = 0 THEN INF ELSE now + o.dl, stop |-> Defaulted(o.stop), nb |-> o.nb],
-                   !.pend[h] = [i |-> er.i = R_PIPE /\ ~hasIn, o |-> er.o = R_PIPE, e |-> er.e = R_PIPE, x |-> TRUE],
-                   !.ch[h] = c,
-                   !.buf[h] = [i |-> IF hasIn THEN o.input ELSE 0, o |-> <<>>, e |-> <<>>],
-                   !.cnt[h] = [NoCnt EXCEPT !.w = IF hasIn THEN o.input ELSE 0],
-                   !.fr = [Frame("start", h, "done", <<>>) EXCEPT !.r = 1]]
-       IN Finish(s, Append(hist, CallRec("start", h, StartArgs(o))))
+    /\ Finish(StartEffect([Bundle EXCEPT !.fr = [Frame("start", h, "done", <<>>) EXCEPT !.r = 1]], h, o),
+              Append(hist, CallRec("start", h, StartArgs(o))))
 
 Pid(h) ==
   Immediate("pid", h, NoArgs, IF h # 0 /\ life[h] \in {"run", "exited"} THEN 1 ELSE EINVAL)
@@ -458,6 +540,25 @@ Poll(srcs, to) ==
   LET args == [src |-> srcs, to |-> to] IN
   IF Len(srcs) = 0 THEN Immediate("poll", 0, args, EINVAL)
   ELSE Begin("poll", 0, args, Frame("poll", 0, "look", <<srcs, to>>))
+
+NoAcc == [c1 |-> 0, c2 |-> 0, b1 |-> 0, b2 |-> 0, z1 |-> 0, z2 |-> 0]
+SinkArgs(sinks) == <<<<"rec", sinks[1][1], sinks[1][2]>>, <<"rec", sinks[2][1], sinks[2][2]>>>>
+
+\* sinks = <<<<fail_at, fail_val>>, <<fail_at, fail_val>>>>; nofn = 1: pass a sink without a function
+Drain(h, sinks, nofn) ==
+  LET args == [sinks |-> IF nofn = 1 THEN <<<<"nofn">>, <<"rec", 0, 0>>>> ELSE SinkArgs(sinks)] IN
+  IF h = 0 \/ life[h] = "none" \/ nofn = 1 THEN Immediate("drain", h, args, EINVAL)
+  ELSE Begin("drain", h, args, [Frame("drain", h, "init", sinks) EXCEPT !.x = NoAcc])
+
+\* reproc_run_ex on a fresh internal handle (index h, never used before): new + start + drain + stop + destroy
+RunCall(h, o, sinks) ==
+  LET args == [StartArgs(o) EXCEPT !.o = @ @@ [x |-> 0]] @@ [sinks |-> SinkArgs(sinks)] IN
+  /\ h # 0 /\ life[h] = "none" /\ ch[h].alive = "none"
+  /\ IF StartError(o) # 0 THEN Immediate("run", h, args, StartError(o))
+     ELSE /\ Idle /\ ncalls' = ncalls + 1
+          /\ Finish(Run(StartEffect([Bundle EXCEPT !.fr = [Frame("run", h, "init", sinks) EXCEPT
+                                                              !.x = NoAcc, !.then = "drain", !.acts = o.stop]], h, o)),
+                    Append(hist, CallRec("run", h, args)))
 
 Resume ==
   /\ Wake
